@@ -351,6 +351,27 @@ pub struct Printer<'r> {
     /// When set, the start offset of the next emitted token is stored in `mark`.
     want_mark: bool,
     mark: usize,
+    /// The next non-empty token is glued to what was printed last (tight operator layout).
+    glue_next: bool,
+}
+
+/// The expression's printed form starts with a word, a number or a string literal.
+fn starts_plain(e: &Expr) -> bool {
+    match e {
+        Expr::Var(_) | Expr::Int(_) | Expr::Float(_) | Expr::Str(_) => true,
+        Expr::Call(f, _) => starts_plain(f),
+        Expr::Field(b, _) | Expr::TupleIndex(b, _) => starts_plain(b),
+        _ => false,
+    }
+}
+
+fn starts_number(e: &Expr) -> bool {
+    match e {
+        Expr::Int(_) | Expr::Float(_) => true,
+        Expr::Call(f, _) => starts_number(f),
+        Expr::Field(b, _) | Expr::TupleIndex(b, _) => starts_number(b),
+        _ => false,
+    }
 }
 
 fn is_wordy(c: char) -> bool {
@@ -368,6 +389,7 @@ impl<'r> Printer<'r> {
             non_ascii,
             want_mark: false,
             mark: 0,
+            glue_next: false,
         }
     }
 
@@ -417,6 +439,10 @@ impl<'r> Printer<'r> {
 
     /// Emit a token; `space_before`: a separator is wanted for style (operators).
     pub fn tok_sp(&mut self, t: &str, space_before: bool) -> (usize, usize) {
+        if self.glue_next && !t.is_empty() {
+            self.glue_next = false;
+            return self.glue(t);
+        }
         let first = t.chars().next().unwrap_or(' ');
         let need = space_before || (self.last_wordy && is_wordy(first));
         if !self.at_line_start || need {
@@ -833,9 +859,43 @@ impl<'r> Printer<'r> {
             }
             Expr::Bin(op, l, r) => {
                 self.expr(l);
-                self.tok_sp(op.text(), true);
-                self.tok_sp("", true);
+                // layout is free around a binary operator: `a - 1`, `a\n  - 1`, `a -1`, `a\n-1`, `a-1`
+                // all mean the same. One operator in four is printed tight on one or both sides
+                // (only where gluing cannot form another token: `<-`, `<<`, `--`-like pairs are avoided
+                // by requiring the right operand to start with a word, a number or a string).
+                let wild = self.mode == Trivia::Wild;
+                let layout = match &mut self.rng {
+                    Some(r) if wild => r.below(8),
+                    _ => 7,
+                };
+                let plain_right = starts_plain(r);
+                // `-` directly in front of a digit is left alone: Gleam's lexer reads `x -1` as the name `x`
+                // followed by the literal `-1` (only `x-1`, glued on both sides, is a subtraction for it), glas reads
+                // a subtraction; which tree is "right" for that layout cannot be settled here, so it is not generated
+                let layout = if matches!(op.text(), "-" | "-.") && starts_number(r) { 7 } else { layout };
+                match layout {
+                    0 if plain_right => {
+                        // tight on both sides
+                        self.glue(op.text());
+                        self.glue_next = true;
+                    }
+                    1 if plain_right => {
+                        // any trivia (a line break too) before the operator, none after it
+                        self.tok_sp(op.text(), true);
+                        self.glue_next = true;
+                    }
+                    2 => {
+                        // none before, normal after
+                        self.glue(op.text());
+                        self.tok_sp("", true);
+                    }
+                    _ => {
+                        self.tok_sp(op.text(), true);
+                        self.tok_sp("", true);
+                    }
+                }
                 self.expr(r);
+                self.glue_next = false;
             }
             Expr::Neg(x) => {
                 self.tok("-");
